@@ -191,7 +191,7 @@ def _tokenize_template(source: str, rules: Pattern[str]) -> Iterator[Token]:  # 
         elif kind == "RAW":
             kind = TOKEN_CONTENT
             value = match.group("raw")
-            lstrip = bool(match.group("rsr"))
+            lstrip = bool(match.group("rsr_e"))
 
         elif kind == "DOC":
             kind = TOKEN_DOC
